@@ -100,6 +100,17 @@ class TreeDriver:
     def initial(self):
         ctx = Ctx()
         ctx.hits = collections.Counter()
+        used = desper.ResourceMap()
+        used['a/b'] = H('probe')
+        used.handles.maps.insert(0, {})
+        used['c'] = H('probe2')
+        fresh = desper.ResourceMap()
+        if (fresh.get('a') is not None or fresh.get('c') is not None
+                or fresh.maps or len(fresh.handles.maps) != 1
+                or fresh.parent is not None or fresh.key is not None):
+            raise Violation('fresh_map_is_independent',
+                            f'a new ResourceMap shows maps {fresh.maps} '
+                            f'handles {fresh.handles}', isolation=True)
         ctx.root = desper.ResourceMap()
         ctx.model = MM(ctx.root)
         ctx.counter = 0
